@@ -142,11 +142,13 @@ def _nb_files(rng):
     other = nbgen.notebook(rng, max_cells=2)
     # a2: a.ipynb with one character replaced - another notebook of exactly the same size
     return {"a.ipynb": base, "b.ipynb": local, "c.ipynb": remote, "sub/d.ipynb": other,
-            "a2.ipynb": nbgen.edit(rng, base, n_edits=1, kinds=["samelen"])}
+            "a2.ipynb": nbgen.edit(rng, base, n_edits=1, kinds=["samelen"]),
+            # a name that ends in a blank is another file than the name without it
+            "pad.ipynb ": nbgen.edit(rng, other, n_edits=2), "pad.ipynb": nbgen.edit(rng, local, n_edits=1)}
 
 
-GOOD = ["a.ipynb", "b.ipynb", "c.ipynb", "sub/d.ipynb", "a2.ipynb"]   # (v3.ipynb exists too, but converting it draws random cell ids)
-BADFILES = ["notes.txt", "empty.ipynb", "broken.ipynb", "nothere.ipynb", "adir.ipynb", "v99.ipynb"]
+GOOD = ["a.ipynb", "b.ipynb", "c.ipynb", "sub/d.ipynb", "a2.ipynb", "pad.ipynb ", "pad.ipynb"]   # (v3.ipynb exists too, but converting it draws random cell ids)
+BADFILES = ["notes.txt", "empty.ipynb", "broken.ipynb", "nothere.ipynb", "adir.ipynb", "v99.ipynb", " a.ipynb", "c.ipynb\n"]
 URL_OK = "http://peer.invalid/nb/ok.ipynb"
 URLS_BAD = ["http://peer.invalid/404.ipynb", "http://peer.invalid/500.ipynb", "http://peer.invalid/refused.ipynb",
             "http://peer.invalid/timeout.ipynb", "http://peer.invalid/html.ipynb"]
